@@ -6,6 +6,7 @@ pub trait Storage {
     spec fn view(&self) -> Store;
 }
 
+#[derive(Clone, Copy)]
 pub struct QuerierWrapper { pub w: Ghost<World> }
 
 pub struct Deps<'a> {
@@ -29,7 +30,7 @@ impl<'a> DepsMut<'a> {
     #[verifier::external_body]
     pub fn as_ref(&self) -> (r: Deps<'_>)
         ensures
-            r.storage.view() == self.storage.view(),
+            r.storage.view() == old(self.storage).view(),
             r.querier == self.querier,
             r.api == self.api,
     { unimplemented!() }
